@@ -700,3 +700,93 @@ def failed_bulk_blocks(ctx, g, rng, n, sig):
                 ctx.add("oracle", sig + ":lookup", "after the failed %s and offset / size edits of the blocks it named, %s.byte_blocks_on(everything) yields %d blocks (%d distinct), a scan of the sets gives %d"
                         % (desc, nm, len(got_l), len(set(got_l)), len(want)), {"call": desc, "raised": raised, "scope": nm})
                 break
+
+
+def repeated_events(ctx, g, sig):
+    """The same index event more than once between two lookups, in a collection with MORE members than pending events (so that the
+    index replays its queue instead of rebuilding): one member goes out / in / out, in / out / in, or its key toggles A -> B -> A ->
+    B, with no lookup in between; the state after the LAST event is what every lookup must show.  At both index levels -- the
+    intervals of a section (addresses) and the blocks of an interval (offsets) -- with every lookup family judged against a scan of
+    the collections at every scope.  Deterministic."""
+    A = 0x1000
+    for level in ("section", "interval"):
+        for pattern in ("out-in-out", "in-out-in", "toggle-key-4", "toggle-key-3", "move-away-and-back-and-away"):
+            ir = g.IR()
+            m = g.Module(name="m", ir=ir)
+            sec = g.Section(name="s", module=m)
+            sec2 = g.Section(name="t", module=m)
+            y = g.Symbol("y", module=m)
+            if level == "section":
+                members = [g.ByteInterval(address=A + 64 * k, size=32, section=sec) for k in range(9)]
+                for k, bi in enumerate(members):
+                    g.CodeBlock(offset=4, size=4, byte_interval=bi)
+                    bi.symbolic_expressions[8] = g.SymAddrConst(k, y)
+                owner, elsewhere, coll = sec, sec2, sec.byte_intervals
+                x = members[3]
+                def put(where): x.section = where                  # noqa: E306
+                def key(v): x.address = v                           # noqa: E306
+                k0, k1 = x.address, A + 64 * 20
+            else:
+                bi0 = g.ByteInterval(address=A, size=256, section=sec)
+                bi1 = g.ByteInterval(address=A + 4096, size=256, section=sec2)
+                members = [(g.CodeBlock if k % 2 else g.DataBlock)(offset=16 * k, size=8, byte_interval=bi0) for k in range(9)]
+                owner, elsewhere, coll = bi0, bi1, bi0.blocks
+                x = members[3]
+                def put(where): x.byte_interval = where             # noqa: E306
+                def key(v): x.offset = v                            # noqa: E306
+                k0, k1 = x.offset, 200
+            scopes = [("section", sec), ("the other section", sec2), ("module", m), ("IR", ir)]
+            whole = range(A - 64, A + 8192)
+
+            def everything():
+                out = []
+                for nm, sc in scopes:
+                    out.append((nm, "byte_intervals_on", sorted(id(b) for b in sc.byte_intervals_on(whole))))
+                    out.append((nm, "byte_blocks_on", sorted(id(b) for b in sc.byte_blocks_on(whole))))
+                    out.append((nm, "byte_blocks_at", sorted(id(b) for b in sc.byte_blocks_at(whole))))
+                    out.append((nm, "symbolic_expressions_at", sorted((id(t[0]), t[1]) for t in sc.symbolic_expressions_at(whole))))
+                for s_ in (sec, sec2):
+                    out.append(("section " + s_.name, "address/size", (s_.address, s_.size)))
+                return out
+
+            def scan():
+                out = []
+                for nm, sc in scopes:
+                    secs = [sc] if isinstance(sc, g.Section) else list(m.sections)
+                    bis = [b for s_ in secs for b in s_.byte_intervals]
+                    out.append((nm, "byte_intervals_on", sorted(id(b) for b in bis if b.address is not None and b.size > 0)))
+                    blks = [(b, k) for b in bis for k in b.blocks if k.offset < b.size]
+                    out.append((nm, "byte_blocks_on", sorted(id(k) for b, k in blks if k.size > 0)))
+                    out.append((nm, "byte_blocks_at", sorted(id(k) for b, k in blks)))
+                    out.append((nm, "symbolic_expressions_at", sorted((id(b), o) for b in bis for o in b.symbolic_expressions if o < b.size)))
+                for s_ in (sec, sec2):
+                    bis = list(s_.byte_intervals)
+                    if bis and all(b.address is not None for b in bis):
+                        lo = min(b.address for b in bis)
+                        out.append(("section " + s_.name, "address/size", (lo, max(b.address + b.size for b in bis) - lo)))
+                    else:
+                        out.append(("section " + s_.name, "address/size", (None, None)))
+                return out
+            everything()                                # every index built
+            if pattern == "out-in-out":
+                put(elsewhere); put(owner); put(elsewhere)
+            elif pattern == "in-out-in":
+                put(elsewhere); everything(); put(owner); put(elsewhere); put(owner)
+            elif pattern == "toggle-key-4":
+                key(k1); key(k0); key(k1); key(k0); key(k1)
+            elif pattern == "toggle-key-3":
+                key(k1); key(k0); key(k1)
+            else:
+                put(None); put(owner); put(None); put(owner); key(k1); put(None)
+            got, want = everything(), scan()
+            ctx.case("repeated-events:%s:%s" % (level, pattern), True)
+            ctx.count("repeated_event_patterns")
+            for (nm, what, a), (_, _, b) in zip(got, want):
+                if a != b:
+                    ctx.add("oracle", sig + ":repeated-events", "one %s of nine going through '%s' with no lookup in between: %s %s gives %d results, a scan of the collections %d"
+                            % ("interval of a section" if level == "section" else "block of an interval", pattern, nm, what,
+                               len(a) if isinstance(a, list) else -1, len(b) if isinstance(b, list) else -1) if isinstance(a, list) else
+                            "one %s of nine going through '%s' with no lookup in between: %s is %s, a scan gives %s" % (
+                                "interval of a section" if level == "section" else "block of an interval", pattern, nm, a, b),
+                            {"level": level, "pattern": pattern, "scope": nm, "lookup": what})
+                    break
